@@ -251,7 +251,7 @@ M('c08-status-moved-between-keys', ['C08'], Y23 + 'f1040.py', "status.MarriedFil
   "(status.MarriedFilingJointly, status.QualifyingSurvivingSpouse): 364200.00,\n                (status.Single, status.MarriedFilingSeparately, status.HeadOfHousehold): 182100.00,", 'R8.1', 'qualifying surviving spouse moved to the joint QBI threshold')
 M('c08-inline-constant-2021', ['C08'], Y21 + 'f1040_s2_need6251.py', "                return 57300.0", "                return 57300.0 + 100", 'R8.1', 'an inline 2021 constant altered')
 M('c08-rate', ['C08'], Y23 + 'fnc_d_400.py', "0.0475", "0.0499", 'R8.1', 'last year\'s NC tax rate', count=None)
-M('c08-wrong-key-input', ['C08'], Y23 + 'f1040_qualdiv_capgain_tax_wkst.py', "FloatField('6', lambda s, i, v: s.threshold('line_6', i['1040.filing_status'])),", "FloatField('6', lambda s, i, v: s.threshold('line_6', v['1040.filing_status'])),", None,
+M('c08-wrong-key-input', ['C08', 'C02'], Y23 + 'f1040_qualdiv_capgain_tax_wkst.py', "FloatField('6', lambda s, i, v: s.threshold('line_6', i['1040.filing_status'])),", "FloatField('6', lambda s, i, v: s.threshold('line_6', v['1040.filing_status'])),", None,
   'lookup keyed by the filing-status line instead of the input: same member, same amounts', 'silent')
 M('c08-use-site-changed', ['C08'], Y23 + 'f1040.py', "                if v['11'] > income_limit:", "                if v['9'] > income_limit:", 'R8.2', 'the QBI threshold is compared with total income instead of AGI')
 M('c08-hsa-limit', ['C08'], Y23 + 'f8889.py', "'hsa_family_contribution_limit':     7750,", "'hsa_family_contribution_limit':     7300,", 'R8', 'last year\'s HSA family limit')
@@ -260,7 +260,7 @@ M('c08-chain-moved-to-thresholds', ['C08'], Y22 + 'f1040_s2_need6251.py', "(1030
 
 # ------------------------------------------------------------------ C02
 M('c02-operands-swapped', ['C02'], Y23 + 'f1040.py', "FloatField('11', lambda s, i, v: v['9'] - v['10']),", "FloatField('11', lambda s, i, v: v['10'] - v['9']),", 'R2', 'subtraction operands swapped')
-M('c02-summand-dropped', ['C02'], Y23 + 'f1040.py', "v['1z'] + v['2b'] + v['3b'] + v['4b'] + v['5b'] + v['6b'] + v['7'] + v['8']", "v['1z'] + v['2b'] + v['3b'] + v['4b'] + v['5b'] + v['7'] + v['8']", None, 'dropping the gated (always zero) line 6b changes nothing', 'silent')
+M('c02-summand-dropped', ['C02'], Y23 + 'f1040.py', "v['1z'] + v['2b'] + v['3b'] + v['4b'] + v['5b'] + v['6b'] + v['7'] + v['8']", "v['1z'] + v['2b'] + v['3b'] + v['4b'] + v['5b'] + v['7'] + v['8']", 'R2.9', 'the gated (always zero) line 6b is dropped from total income: the value is unchanged, but line 9 no longer reads what its 2022 sibling reads (and line 6b, a gate, is no longer demanded)')
 M('c02-real-summand-dropped', ['C02'], Y23 + 'f1040.py', "v['1z'] + v['2b'] + v['3b'] + v['4b'] + v['5b'] + v['6b'] + v['7'] + v['8']", "v['1z'] + v['2b'] + v['3b'] + v['4b'] + v['6b'] + v['7'] + v['8']", 'R2', 'a summand (taxable pensions) dropped from total income')
 M('c02-min-to-max', ['C02'], Y23 + 'f1040_qualdiv_capgain_tax_wkst.py', "FloatField('10', lambda s, i, v: min(v['1'], v['4'])),", "FloatField('10', lambda s, i, v: max(v['1'], v['4'])),", 'R2', 'smaller-of turned into larger-of')
 M('c02-min-dropped', ['C02'], Y22 + 'f1040_qualdiv_capgain_tax_wkst.py', "FloatField('10', lambda s, i, v: min(v['1'], v['4'])),", "FloatField('10', lambda s, i, v: v['4']),", 'R2', 'smaller-of dropped (seed C02-B)')
@@ -382,14 +382,14 @@ M('c15-nc-use-tax-credit-uncapped', ['C15'], Y21 + 'fnc_d_400_consumer_use_tax_w
 M('c15-wkst-min-to-max', ['C15'], Y23 + 'f1040_qualdiv_capgain_tax_wkst.py', "FloatField('8', lambda s, i, v: min(v['5'], v['7'])),", "FloatField('8', lambda s, i, v: max(v['5'], v['7'])),", 'R15.2', 'capital-gain worksheet: smaller-of replaced by larger-of lets line 9 = line 7 - line 8 go negative (relational stage)')
 M('c15-wkst-19-wrong-operand', ['C15'], Y23 + 'f1040_qualdiv_capgain_tax_wkst.py', "FloatField('19', lambda s, i, v: v['9'] + v['17']),", "FloatField('19', lambda s, i, v: v['9'] + v['16']),", 'R15.2', 'capital-gain worksheet line 19 adds line 16 instead of line 17: line 20 = line 10 - line 19 can go negative (needs the polyhedral case analysis)')
 M('c15-8812-ratio-uncapped', ['C15'], Y21 + 'f1040_s8812.py', "FloatField('36', lambda s, i, v: min(1.0, v['34'] / v['35']), places=3),", "FloatField('36', lambda s, i, v: v['34'] / v['35'], places=3),", 'R15.2', 'repayment-protection ratio may exceed 1: line 39 = line 37 - line 38 goes negative')
-M('c15-nc-floor-as-guard', ['C15'], Y23 + 'fnc_d_400.py', "FloatField('15', lambda s, i, v: max(0.0, v['14'] * 0.0475), places=0), # NC Income Tax", "FloatField('15', lambda s, i, v: v['14'] * 0.0475 if v['14'] > 0 else 0.0, places=0), # NC Income Tax", None, 'floor written as a guarded product', 'silent')
+M('c15-nc-floor-as-guard', ['C15', 'C02'], Y23 + 'fnc_d_400.py', "FloatField('15', lambda s, i, v: max(0.0, v['14'] * 0.0475), places=0), # NC Income Tax", "FloatField('15', lambda s, i, v: v['14'] * 0.0475 if v['14'] > 0 else 0.0, places=0), # NC Income Tax", None, 'floor written as a guarded product', 'silent')
 
 M('c15-s3-capped-at-tax', ['C15'], Y23 + 'f1040_s3.py', "            return foreign_tax if foreign_tax > 0.001 else None\n", "            foreign_tax = min(foreign_tax, v['1040.16'])\n            return foreign_tax if foreign_tax > 0.001 else None\n", None, 'Schedule 3 line 1 limited to the tax (repair of the known finding F26): the repaired tree must be quiet', 'silent')
 
 # ------------------------------------------------------------------ C16
 M('c16-wkst-20-wrong-operand', ['C16'], Y23 + 'f1040_qualdiv_capgain_tax_wkst.py', "FloatField('20', lambda s, i, v: v['10'] - v['19']),", "FloatField('20', lambda s, i, v: v['4'] - v['19']),", 'R16.8', 'capital-gain worksheet line 20 starts from line 4 instead of line 10: more wages lower the tax, a larger deduction raises it (seed C16-C, 2023)')
 M('c16-medical-floor-sign', ['C16'], Y23 + 'f1040_sa.py', "FloatField('3', lambda s, i, v: 0.075 * v['2']),", "FloatField('3', lambda s, i, v: -0.075 * v['2']),", 'R16.8', 'the medical-expense floor grows the deduction with income: the deduction no longer falls when wages grow', accept_error=True)
-M('c16-min-as-conditional', ['C16'], Y23 + 'f1040_qualdiv_capgain_tax_wkst.py', "FloatField('25', lambda s, i, v: min(v['23'], v['24'])),", "FloatField('25', lambda s, i, v: v['23'] if v['23'] < v['24'] else v['24']),", None, 'smaller-of written as a comparison: an input-dependent cut that is crossed continuously', 'silent')
+M('c16-min-as-conditional', ['C16', 'C02'], Y23 + 'f1040_qualdiv_capgain_tax_wkst.py', "FloatField('25', lambda s, i, v: min(v['23'], v['24'])),", "FloatField('25', lambda s, i, v: v['23'] if v['23'] < v['24'] else v['24']),", None, 'smaller-of written as a comparison: an input-dependent cut that is crossed continuously', 'silent')
 M('c16-nc-withholding-owner-dropped', ['C16'], Y22 + 'fnc_d_400.py', "[enum.taxpayer_or_spouse.spouse, enum.taxpayer_spouse_or_both.spouse])", "[enum.taxpayer_or_spouse.spouse])", None, 'NC tax withheld on a 1099 owned by the spouse reaches neither line 20a nor 20b (seed C16-E)')
 M('c16-nc-withholding-both-twice', ['C16'], Y23 + 'fnc_d_400.py', "[enum.taxpayer_or_spouse.spouse, enum.taxpayer_spouse_or_both.spouse])", "[enum.taxpayer_or_spouse.spouse, enum.taxpayer_spouse_or_both.spouse, enum.taxpayer_spouse_or_both.both])", 'R16.7', 'NC tax withheld on a jointly owned 1099 is counted on both line 20a and line 20b')
 M('c16-election-threshold-differs', ['C16'], Y23 + 'f1040.py', "(v['1040_sa.17'] >= standard_deduction(s, i) or i['1040_sa.itemize_though_less'])", "(v['1040_sa.17'] >= standard_deduction(s, i) - 500.0 or i['1040_sa.itemize_though_less'])", 'R16.6', 'itemizing is chosen from 500 below the standard deduction: a larger Schedule A total can lower line 12')
@@ -655,3 +655,14 @@ M('k11d-subclass-delegates', ['C11'], IN, "class EnumInput(StringInput):\n", "cl
 M('r17-inputs-built-by-a-helper', ['C17', 'C05', 'C01'], Y23 + 'f1098.py', "            StringInput('box_8', description=\"Address or description of property securing mortgage\"),", "            _box8(),", None,
   'one input object is built by a module-level helper function on every call', expect='silent',
   more=[(Y23 + 'f1098.py', "class Form1098(InputForm):", "def _box8():\n    return StringInput('box_8', description=\"Address or description of property securing mortgage\")\n\nclass Form1098(InputForm):")])
+
+
+# ------------------------------------------------------------------ round 9 of the seeded changes
+M('r2-9-one-year-assigns-instead-of-adding', ['C02'], Y23 + 'f1040_s1.py', "            hsa_deduction += v['8889:spouse.hsa_deduction'] if spouse_hsa else 0.0\n",
+  "            if spouse_hsa:\n                hsa_deduction = v['8889:spouse.hsa_deduction']\n", 'R2.9',
+  'the 2023 Schedule 1 line 13 assigns the spouse\'s deduction instead of adding it; 2021 and 2022 still add (seed C02-R)')
+M('k13-required-lines-only-the-first-time', ['C01', 'C04', 'C05', 'C13'], S, "        self._add_unattempted(new_form.required_fields())\n        self._solving_fields |= set([f.name() for f in new_form.required_fields()])\n",
+  "        first_time = new_form.name() not in self.forms or True\n        if first_time and form_name:\n            self._add_unattempted(new_form.required_fields())\n            self._solving_fields |= set([f.name() for f in new_form.required_fields()])\n", 'K13',
+  'the required lines are queued only under a further condition (seed C01-Q)')
+M('l2c-demand-in-an-unconsumed-generator', ['C01', 'C04', 'C09'], Y22 + 'f1040_sb.py', "                v['7a']\n                v['7b']\n                v['8']\n", "                (v[line] for line in ('7a', '7b', '8'))\n", 'L2c',
+  'the demand-only reads of Part III are written as a generator expression that nothing consumes (seed C01-R)')
